@@ -89,6 +89,14 @@ def main():
             opts['stop_on_violation'] = False
         elif a == '--keep':
             opts['keep_unknown'] = args.pop(0)
+        elif a == '--cut':
+            opts['cuts'] = 'reduce'
+        elif a == '--cutadd':
+            opts['cuts'] = 'add'
+        elif a == '--slow':
+            opts['trace_slow'] = True
+        else:
+            raise SystemExit('unknown option ' + a)
     harness = args[0]
     hargs = [int(x) for x in args[1:]]
     t0 = time.time()
